@@ -10,7 +10,7 @@
     Graphs: node ids pairwise distinct ([NoDup (node_ids g)], guaranteed by networkx); adjacency is symmetric by
     construction ([LGraph.adj]). *)
 From Coq Require Import List NArith ZArith Bool Arith Permutation Sorted.
-From SK Require Import lib.LGraph model.C12_Model model.C12_Trace model.C12_Check model.C12_CheckMtg model.C12_State proof.C12_Search proof.C12_Proof proof.C12_Prune proof.C12_Enum proof.C12_Sorted proof.C12_Component proof.C12_Mol proof.C12_State proof.C12_Trace proof.C12_LastSize proof.C12_StateRaw proof.C12_Check proof.C12_MtgRaw proof.C12_CheckMtg proof.C12_FacadeRaw proof.C12_ComponentRaw.
+From SK Require Import lib.LGraph model.C12_Model model.C12_Trace model.C12_Check model.C12_CheckMtg model.C12_State proof.C12_Search proof.C12_Proof proof.C12_Prune proof.C12_Enum proof.C12_Sorted proof.C12_Component proof.C12_Mol proof.C12_State proof.C12_Trace proof.C12_LastSize proof.C12_StateRaw proof.C12_Check proof.C12_MtgRaw proof.C12_CheckMtg proof.C12_FacadeRaw proof.C12_ComponentRaw proof.C12_ModesRaw.
 Import ListNotations.
 
 (** ** 0. the specification: a common induced sub-graph mapping, written out.
@@ -822,3 +822,36 @@ Theorem C12_component_valid_raw :
     raw_valid cfg ga gb m /\ raw_valid cfg gb ga (invert_mapping m).
 Proof. exact history_component_valid_raw. Qed.
 Print Assumptions C12_component_valid_raw.
+
+(** ** 28. the two VF2-order dependent modes on the caller's graphs.  With an ACCEPTED parameter -- VF2's first mapping per host
+    node set under prune_automorphisms ([apply_choices]), VF2's isomorphisms inside the matched component pairs under mcs_mol
+    ([find_mcs_mol_with]) -- after ANY history the G1 -> G2 answers are valid ([raw_valid]) for (G1, G2) and the G2 -> G1 answers
+    are their position-wise inverses, valid for (G2, G1); under mcs_mol there is exactly one mapping, of the size of the parameter
+    and made of its pairs. *)
+Theorem C12_history_prune_auto_valid_raw :
+  forall (a : ctor_args) (cfg : config) (st : mstate) (ops : list mop) (g1 g2 : rgraph) (mcs : bool) (choices : list mapping)
+         (rds : list mop) (kept : list mapping),
+  mk_config a = Some cfg -> NoDup (node_ids g1) -> NoDup (node_ids g2) -> forallb is_read rds = true ->
+  apply_choices (r_maps (find_common_subgraph (c_defs cfg) (c_prune cfg) (c_wc cfg) (project cfg g1) (project cfg g2) mcs)) choices
+    = Some kept ->
+  let stf := m_run cfg st (ops ++ MFindAuto g1 g2 mcs choices :: rds) in
+  exists l12, m_get stf D12 = Some l12 /\ m_get stf D21 = Some (map invert_mapping l12) /\ length l12 = length kept /\
+    (forall m, In m l12 -> raw_valid cfg g1 g2 m) /\
+    (forall m, In m (map invert_mapping l12) -> raw_valid cfg g2 g1 m).
+Proof. exact history_auto_valid_raw. Qed.
+Print Assumptions C12_history_prune_auto_valid_raw.
+
+Theorem C12_history_mcs_mol_valid_raw :
+  forall (a : ctor_args) (cfg : config) (st : mstate) (ops : list mop) (g1 g2 : rgraph) (choice : mapping) (rds : list mop)
+         (r : result),
+  mk_config a = Some cfg -> NoDup (node_ids g1) -> NoDup (node_ids g2) ->
+  (forall u v e, In (u, v, e) (gedges g1) -> In u (node_ids g1) /\ In v (node_ids g1)) ->
+  (forall u v e, In (u, v, e) (gedges g2) -> In u (node_ids g2) /\ In v (node_ids g2)) ->
+  forallb is_read rds = true ->
+  find_mcs_mol_with (c_defs cfg) (c_prune cfg) (c_wc cfg) (project cfg g1) (project cfg g2) choice = Some r ->
+  let stf := m_run cfg st (ops ++ MFindMol g1 g2 choice :: rds) in
+  exists m, m_get stf D12 = Some [m] /\ m_get stf D21 = Some [invert_mapping m] /\ s_flag stf = Some true /\ s_last stf = length m /\
+    length m = length choice /\ (forall ph, In ph m -> In ph choice) /\
+    raw_valid cfg g1 g2 m /\ raw_valid cfg g2 g1 (invert_mapping m).
+Proof. exact history_mol_valid_raw. Qed.
+Print Assumptions C12_history_mcs_mol_valid_raw.
